@@ -14,8 +14,17 @@ E = 'request_builder::AppEntry'
 OPS = ['uc', 'ping', 'ev']
 
 
+def _map_shape(origin, ty, st=None, ex=None):
+    # an app's extra-field map: one arbitrary entry (key and value arbitrary strings, the value possibly empty)
+    if 'HashMap' in (ty or '') or 'BTreeMap' in (ty or ''):
+        return 1
+    if ex is not None and re.match(r'^app\d+\.%d$' % fidx(ex, A, 'extra_fields'), origin or ''):
+        return 1
+    return None
+
+
 def real_builder_executor(chk, cfg=None):
-    c = dict(unroll=10, max_paths=200000)
+    c = dict(unroll=10, max_paths=200000, shape=_map_shape)
     if cfg:
         c.update(cfg)
     ex = make_sm_executor(chk, c, cuts=())
@@ -219,6 +228,19 @@ def check_built(ex, st, seq, before, D, plan=('session_id', 'request_id')):
         pg = ex.child(st, pa, fidx(ex, P, 'ping'), None)
         if dval(ex, st, ex.discr_of(st, pg).t) != (1 if ping else 0):
             return bad('ping presence wrong for app %d' % ai)
+        # extra fields verbatim: the same map, or a rebuilt one with the same entries
+        wx = smodels.deref_all(ex, st, ex.child(st, pa, fidx(ex, P, 'extra_fields'), None))
+        ax = ex.child(st, app, fidx(ex, A, 'extra_fields'), None)
+        if not ex.veq(wx, ax):
+            if not (isinstance(wx, Tree) and wx.meta and wx.meta[0] == 'map'):
+                return bad('the wire app\'s extra fields are not the app\'s extra fields')
+            went = [wx.f[i] for i in range(wx.meta[1])]
+            aent = vec_items(ex, st, ax)
+            if len(went) != len(aent):
+                return bad('%d extra fields on the wire, the app has %d' % (len(went), len(aent)))
+            for we, ae in zip(went, aent):
+                D.require(st, z3.And(as_str(ex, st, ex.child(st, we, 0, None)).t == as_str(ex, st, ex.child(st, ae, 0, None)).t,
+                                     as_str(ex, st, ex.child(st, we, 1, None)).t == as_str(ex, st, ex.child(st, ae, 1, None)).t), 'extra field carried verbatim')
         wev = vec_items(ex, st, ex.child(st, pa, fidx(ex, P, 'events'), None))
         if [getattr(v, 'origin', None) for v in wev] != evs:
             return bad('events of app %d are %s, expected %s' % (ai, [getattr(v, 'origin', None) for v in wev], evs))
